@@ -112,7 +112,7 @@ def bounded_histories(ctx):
                         kw = {"n_procs": 1} if worker == "cf" else {}
                         out = task(cache_root=tmp / "cache", worker=worker, **kw)
                         err = None
-                    except Exception as e:  # noqa
+                    except BaseException as e:  # noqa (SystemExit / KeyboardInterrupt are failures too)
                         out, err = None, e
                     obs.append({"step": step, "good": good, "raised": type(err).__name__ if err else None, "msg": str(err)[:200] if err else None, "executions": _count(log) - before, "out": repr(out)[:120]})
                 dom.case((name, worker), sample={"task": name, "worker": worker, "history": obs})
@@ -130,6 +130,51 @@ def bounded_histories(ctx):
             finally:
                 os.chdir(cwd)
                 shutil.rmtree(tmp, ignore_errors=True)
+
+
+def bounded_same_task_recovers(ctx):
+    """history [fail, succeed, succeed] of the SAME task identity (an external cause of the failure
+    disappears): the failure is reported once, then the task is executed again and reported as a success"""
+    from props._c13tasks import NeedsFile
+
+    dom = ctx.domain(
+        "same-identity-fails-then-succeeds",
+        bound="one python task reading a file that is missing for the first submission and present afterwards; 3 submissions into one cache root; debug worker (thorough: also cf)",
+        rule="non-trivial: all",
+        exhaustive=True,
+    )
+    for worker in ["debug"] + (["cf"] if ctx.thorough else []):
+        tmp = Path(tempfile.mkdtemp(prefix="vf_c13s_"))
+        log = tmp / "body.log"
+        os.environ["VF_C13_LOG"] = str(log)
+        cwd = os.getcwd()
+        try:
+            f = tmp / "data.txt"
+            obs = []
+            for step in range(3):
+                if step == 1:
+                    f.write_text("hello")
+                before = _count(log)
+                try:
+                    kw = {"n_procs": 1} if worker == "cf" else {}
+                    out = NeedsFile(p=str(f))(cache_root=tmp / "cache", worker=worker, **kw)
+                    err = None
+                except BaseException as e:  # noqa
+                    out, err = None, e
+                obs.append({"step": step, "raised": type(err).__name__ if err else None, "executions": _count(log) - before, "out": getattr(out, "out", None)})
+            case = {"task": "needs-file", "worker": worker, "history": obs}
+            dom.case(("needs-file", worker), sample=case)
+            if obs[0]["raised"] is None:
+                ctx.fail("failure-not-reported:needs-file", "missing input file not reported as a failure", case, domain=dom)
+            if obs[1]["raised"] is not None or obs[1]["out"] != 5:
+                ctx.fail("recovered-task-reported-as-failed", f"second submission (cause of the failure gone) gave {obs[1]}", case, domain=dom)
+            elif obs[1]["executions"] < 1:
+                ctx.fail("failure-served-from-cache", "second submission did not execute the task again", case, domain=dom)
+            if obs[2]["raised"] is not None or obs[2]["out"] != 5 or obs[2]["executions"] != 0:
+                ctx.fail("successful-result-not-reused", f"third submission gave {obs[2]}", case, domain=dom)
+        finally:
+            os.chdir(cwd)
+            shutil.rmtree(tmp, ignore_errors=True)
 
 
 def _count(p):
@@ -153,6 +198,7 @@ def run(ctx):
         summarize(ctx, res)
     H.bounded_injection(ctx, "C13")
     bounded_histories(ctx)
+    bounded_same_task_recovers(ctx)
 
 
 def replay(rec):
